@@ -529,6 +529,9 @@ pub fn fs_hook_scenario(ch: &mut Chooser, thorough: bool) -> Exec {
     let nreads = if thorough { 4 } else { 3 };
     // two reads issued by the host within one step (several hook firings in one tick)
     let pairs = ch.flag("two_reads_in_one_step");
+    // the host itself builds a match-all barrier right after one of its reads, within the same
+    // step: that read happened before the barrier existed
+    let host_builds_after = *ch.of("host_builds_a_barrier_right_after_its_read", &[9usize, 0, 1]);
     // reads: (file, offset, len)
     let mut reads: Vec<(usize, u64, usize)> = vec![];
     for _ in 0..nreads {
@@ -544,9 +547,10 @@ pub fn fs_hook_scenario(ch: &mut Chooser, thorough: bool) -> Exec {
     // shared script state: which read to perform in this step, and the result
     let cur: Rc<RefCell<Vec<(usize, u64, usize)>>> = Rc::new(RefCell::new(vec![]));
     let res: Rc<RefCell<Vec<(usize, u64, Vec<u8>)>>> = Rc::new(RefCell::new(vec![]));
-    let (cur2, res2) = (cur.clone(), res.clone());
+    let host_bar: Rc<RefCell<Option<Barrier<FsCorruption>>>> = Rc::new(RefCell::new(None));
+    let (cur2, res2, hb2) = (cur.clone(), res.clone(), host_bar.clone());
     sim.host("h", move || {
-        let (cur2, res2) = (cur2.clone(), res2.clone());
+        let (cur2, res2, hb2) = (cur2.clone(), res2.clone(), hb2.clone());
         async move {
             use std::os::unix::fs::FileExt;
             fs::write("/a", (0..8u8).map(|i| i * 3 + 1).collect::<Vec<u8>>())?;
@@ -559,6 +563,9 @@ pub fn fs_hook_scenario(ch: &mut Chooser, thorough: bool) -> Exec {
                     let n = file.read_at(&mut buf, off)?;
                     buf.truncate(n);
                     res2.borrow_mut().push((f, off, buf));
+                    if res2.borrow().len() == host_builds_after + 1 {
+                        *hb2.borrow_mut() = Some(Barrier::build(Reaction::Noop, |_e: &FsCorruption| true));
+                    }
                 }
                 tokio::time::sleep(std::time::Duration::from_millis(1)).await;
             }
@@ -606,6 +613,15 @@ pub fn fs_hook_scenario(ch: &mut Chooser, thorough: bool) -> Exec {
             break;
         }
         for (gi, &(f, off, len)) in group.iter().enumerate() {
+        // a barrier the host built right after its previous read is live from here on
+        if before + gi == host_builds_after + 1 {
+            if let Some(bar) = host_bar.borrow_mut().take() {
+                live.push((0, bar, vec![]));
+                expected.push(vec![]);
+                ids.push(expected.len() - 1);
+                obs.push(format!("after read {}: the host built a match-all barrier", host_builds_after));
+            }
+        }
         let data = res.borrow()[before + gi].2.clone();
         let i = i + gi;
         let want: Vec<u8> = content(f)[off as usize..(off as usize + len).min(8)].to_vec();
@@ -631,6 +647,15 @@ pub fn fs_hook_scenario(ch: &mut Chooser, thorough: bool) -> Exec {
         if violation.is_some() {
             break;
         }
+        // (built after the last read of the step)
+        if before + group.len() == host_builds_after + 1 {
+            if let Some(bar) = host_bar.borrow_mut().take() {
+                live.push((0, bar, vec![]));
+                expected.push(vec![]);
+                ids.push(expected.len() - 1);
+                obs.push(format!("after read {}: the host built a match-all barrier", host_builds_after));
+            }
+        }
         for (_, bar, logv) in live.iter_mut() {
             logv.extend(poll_barrier(bar));
         }
@@ -652,7 +677,7 @@ pub fn fs_hook_scenario(ch: &mut Chooser, thorough: bool) -> Exec {
     }
     if let Some(v) = violation.as_mut() {
         v.sig = format!("fs-hook|{}", v.clause);
-        v.scenario = format!("c20 part=2 tier={} prob_one={prob_one} setup={setup:?} drop_first_before={drop_first_before} late={late_barrier_before} reads={reads:?}", if thorough { "thorough" } else { "quick" });
+        v.scenario = format!("c20 part=2 tier={} prob_one={prob_one} setup={setup:?} drop_first_before={drop_first_before} late={late_barrier_before} host_builds_after={host_builds_after} reads={reads:?}", if thorough { "thorough" } else { "quick" });
         v.actions = obs.clone();
     }
     let mut feats = vec![];
